@@ -105,14 +105,15 @@ type sequenceLexicon struct {
 	values []int32
 	begins []uint32
 
-	// idSet is a mapping of a sequence hash to sequence index in the lexicon.
-	idSet map[uint32]int32
+	// idSet is a mapping of a sequence hash to the indexes in the lexicon of
+	// the sequences with that hash.
+	idSet map[uint32][]int32
 }
 
 func newSequenceLexicon() *sequenceLexicon {
 	return &sequenceLexicon{
 		begins: []uint32{0},
-		idSet:  make(map[uint32]int32),
+		idSet:  make(map[uint32][]int32),
 	}
 }
 
@@ -120,22 +121,40 @@ func newSequenceLexicon() *sequenceLexicon {
 func (l *sequenceLexicon) clear() {
 	l.values = nil
 	l.begins = []uint32{0}
-	l.idSet = make(map[uint32]int32)
+	l.idSet = make(map[uint32][]int32)
 }
 
 // add adds the given value to the lexicon if it is not already present, and
 // returns its ID. IDs are assigned sequentially starting from zero.
 func (l *sequenceLexicon) add(ids []int32) int32 {
-	if id, ok := l.idSet[hashSet(ids)]; ok {
-		return id
+	// Different sequences can have the same hash, so a hash match only
+	// identifies candidates: compare with the stored sequences.
+	hash := hashSet(ids)
+	for _, id := range l.idSet[hash] {
+		if int32sEqual(l.sequence(id), ids) {
+			return id
+		}
 	}
 	l.values = append(l.values, ids...)
 	l.begins = append(l.begins, uint32(len(l.values)))
 
 	id := int32(len(l.begins)) - 2
-	l.idSet[hashSet(ids)] = id
+	l.idSet[hash] = append(l.idSet[hash], id)
 
 	return id
+}
+
+// int32sEqual reports whether the two slices hold the same values.
+func int32sEqual(a, b []int32) bool {
+	if len(a) != len(b) {
+		return false
+	}
+	for i := range a {
+		if a[i] != b[i] {
+			return false
+		}
+	}
+	return true
 }
 
 // sequence returns the original sequence of values for the given ID.
